@@ -3,7 +3,7 @@ import itertools
 import random
 import sys
 
-from common import main
+from common import main, budget
 import C04 as ap
 
 
@@ -36,6 +36,46 @@ def check_scene(case):
     return None
 
 
+def check_scene_pooled(case):
+    """scene-level evaluation as the manager does it: one nested structure {label: [[], frame results...]} evaluated against several threshold rows
+    (loose row first); AP per label must not be lower in the looser row, and the evaluation must not change the structure it is given"""
+    import frames
+    from perception_eval.evaluation.matching.objects_filter import divide_objects, divide_objects_to_num
+    from perception_eval.evaluation.metrics.metrics import MetricsScore
+    n = len(case["targets"])
+    loose, tight = case["rows"]
+    et, cof, pfc, msc = frames.configs("detection", case["targets"], case["crit"], [loose] * n,
+                                       metrics=dict(center_distance_thresholds=[[loose] * n, [tight] * n], plane_distance_thresholds=[[loose] * n, [tight] * n]))
+    pooled = {lab: [[]] for lab in cof.target_labels}
+    num_gt = {lab: 0 for lab in cof.target_labels}
+    for f in case["frames"]:
+        fr, eo, go, res = frames.frame_result(f["est"], f["gt"], ego=None, task="detection", targets=case["targets"], crit=case["crit"], pass_thr=[loose] * n,
+                                              metrics=dict(center_distance_thresholds=[[loose] * n, [tight] * n], plane_distance_thresholds=[[loose] * n, [tight] * n]))
+        d = divide_objects(fr.object_results, cof.target_labels)
+        g = divide_objects_to_num(fr.frame_ground_truth.objects, cof.target_labels)
+        for lab in cof.target_labels:
+            pooled[lab].append(d[lab])
+            num_gt[lab] += g[lab]
+    before = {lab: [list(x) for x in v] for lab, v in pooled.items()}
+    ms = MetricsScore(config=msc, used_frame=list(range(len(case["frames"]))))
+    ms.evaluate_detection(pooled, num_gt)
+    after = {lab: [list(x) for x in v] for lab, v in pooled.items()}
+    if any(len(a) != len(b) or any(len(x) != len(y) or any(p is not q for p, q in zip(x, y)) for x, y in zip(a, b)) for a, b in ((after[l], before[l]) for l in before)):
+        return "evaluating the scene changed the pooled per-frame results it was given"
+    by_mode = {}
+    for m in ms.maps:
+        by_mode.setdefault(str(m.matching_mode), []).append(m)
+    for mode in ("Center Distance", "Plane Distance"):
+        rows = by_mode.get(mode, [])
+        if len(rows) == 2:
+            for a_loose, a_tight in zip(rows[0].aps, rows[1].aps):
+                if a_loose.ap != float("inf") and a_tight.ap != float("inf") and a_loose.ap < a_tight.ap - 1e-12:
+                    return f"scene {mode} AP is {a_loose.ap} at the looser threshold {loose} and {a_tight.ap} at the tighter threshold {tight}"
+                if a_tight.ap != float("inf") and a_tight.ap > 1 + 1e-9:
+                    return f"scene {mode} AP {a_tight.ap} exceeds 1"
+    return None
+
+
 def search(item, seed):
     vals = [0.0, 0.5, 1.0]
     for n in range(0, 6):
@@ -47,7 +87,7 @@ def search(item, seed):
                     if why:
                         return dict(function="Ap", input=dict(w1=list(w1), w2=list(w2), G=G), observed=why)
     rnd = random.Random(seed * 7 + 2)
-    for _ in range(60):
+    for _ in range(budget(60)):
         case = ap.gen_scene(rnd)
         case["thrs"] = [0.0, 0.3, 0.9, 1.7, 3.0]
         try:
@@ -56,12 +96,25 @@ def search(item, seed):
             why = f"raised {type(ex).__name__}: {ex}"
         if why:
             return dict(function="scene", input=case, observed=why)
+    for _ in range(budget(40)):
+        base = ap.gen_scene(rnd)
+        case = dict(targets=base["targets"], crit=base["crit"], rows=[rnd.choice([1.7, 3.0]), rnd.choice([0.3, 0.9])],
+                    frames=[dict(est=base["est"], gt=base["gt"])] + [(lambda b: dict(est=b["est"], gt=b["gt"]))(ap.gen_scene(rnd)) for _ in range(rnd.randint(1, 2))])
+        try:
+            why = check_scene_pooled(case)
+        except Exception as ex:
+            why = f"raised {type(ex).__name__}: {ex}"
+        if why:
+            return dict(function="pooled", input=case, observed=why)
     return None
 
 
 def replay(payload):
     i = payload["input"]
-    why = check_ap(i["w1"], i["w2"], i["G"]) if payload["function"] == "Ap" else check_scene(i)
+    if payload["function"] == "pooled":
+        why = check_scene_pooled(i)
+    else:
+        why = check_ap(i["w1"], i["w2"], i["G"]) if payload["function"] == "Ap" else check_scene(i)
     return (why is None, why or "ok")
 
 
